@@ -4,7 +4,10 @@
 (*   world[k]   replica series [lbls, id, samples <<t,v>>.., chunks         *)
 (*              [lo,hi,st]..] built by the harness from the case            *)
 (*   cfg        [dedup, rls, strip, lo, hi, pr, retr, frame, batch, tsdb,   *)
-(*               fail, tight, sel, down, fn, rng, maxres]; nstores          *)
+(*               fail, tight, sel, down, fn, rng, maxres, skip, mid, lv, ..] *)
+(*   nstores, resms (downsampling window in ms, 0 = none); chunks carry     *)
+(*   ds + agg (their downsampled form: count,sum,min,max,counter,avg)       *)
+(*   lnames, lvals, lerr  LabelNames / LabelValues(cfg.lv) of the querier   *)
 (*   series[i]  [lbls, samples] as returned by                              *)
 (*              NewQueryableCreator(..)(dedup, rls, ..).Querier(lo, hi)     *)
 (*              .Select(nil hints, __name__="m") over a real ProxyStore     *)
@@ -19,30 +22,54 @@ EXTENDS TraceLib, ReadPath
 
 (* "With deduplication off" = no label is a replica label.  *)
 RLof(e) == IF e.cfg.dedup THEN RangeOf(e.cfg.rls) ELSE {}
+StoreName(k) == "store-" \o ToString(k)
+AllStores(e) == 1..e.nstores
 
-(* stores that take part: selected by the store matchers (cfg.sel, 0 = all) and not down *)
-InScope(e) == { s \in 1..e.nstores : (e.cfg.sel = 0 \/ e.cfg.sel = s) /\ e.cfg.down # s }
-SReps(e) == IF e.cfg.tsdb THEN RangeOf(e.world) ELSE Scoped(RangeOf(e.world), InScope(e))
-VReps(e) == Visible(SReps(e))
+(* stores that take part and answer completely: selected by the store matchers (cfg.sel, 0 = all), not down *)
+Healthy(e) == IF e.cfg.tsdb THEN AllStores(e)
+              ELSE { s \in AllStores(e) : (e.cfg.sel = 0 \/ e.cfg.sel = s) /\ e.cfg.down # s }
+(* a selected store that fails mid-stream still contributes what it sent before *)
+MidDown(e) == e.cfg.mid /\ e.cfg.down \in AllStores(e) /\ (e.cfg.sel = 0 \/ e.cfg.sel = e.cfg.down)
+Reaching(e) == Healthy(e) \cup (IF MidDown(e) THEN {e.cfg.down} ELSE {})
 (* a queried store fails: the extra failing store, or a selected data store that is down *)
 Failing(e) == \/ e.cfg.fail # "" /\ e.cfg.sel = 0
-              \/ e.cfg.down # 0 /\ e.cfg.down <= e.nstores /\ (e.cfg.sel = 0 \/ e.cfg.sel = e.cfg.down)
+              \/ e.cfg.down \in AllStores(e) /\ (e.cfg.sel = 0 \/ e.cfg.sel = e.cfg.down)
 
-(* label sets of the known-finding class (input only; same predicate as ReadPathMC) *)
-InKF(e, l) ==
-    LET G == Group(SReps(e), RLof(e), l)  VG == Group(VReps(e), RLof(e), l) IN
-    /\ RLof(e) # {} /\ ~e.cfg.tsdb /\ VG # {} /\ IdenticalGroup(VG)
+(* the fake store serves the downsampled form of a chunk iff it holds one and the request it *)
+(* received allows that resolution (auto-downsampling)                                        *)
+Served(e, c) == /\ c.ds /\ e.resms > 0
+                /\ \E k \in DOMAIN e.reqs : e.reqs[k].store = StoreName(c.st) /\ e.reqs[k].maxres >= e.resms
+Reps(e) == RangeOf(e.world)
+VH(e) == EffView(Reps(e), Healthy(e), LAMBDA c : Served(e, c), e.cfg.fn)     \* must be in the answer
+VA(e) == IF MidDown(e) THEN EffView(Reps(e), Reaching(e), LAMBDA c : Served(e, c), e.cfg.fn) ELSE VH(e)   \* may be
+SReps(e) == Scoped(Reps(e), Healthy(e))
+CounterQuery(e) == AggrKind(e.cfg.fn) = "counter"
+
+(* label sets of the known-finding class (input only; same predicate as ReadPathMC and inKFClass); *)
+(* must / may = VH(e) / VA(e), passed in so that they are computed once per line                    *)
+InKF(e, must, l) ==
+    LET G == Group(SReps(e), RLof(e), l)  VG == Group(must, RLof(e), l) IN
+    /\ RLof(e) # {} /\ ~e.cfg.tsdb /\ e.resms = 0 /\ ~e.cfg.skip /\ VG # {} /\ IdenticalGroup(VG)
     /\ FirstChainIncomplete(GroupChunks(G, e.cfg.lo, e.cfg.hi), e.cfg.lo, e.cfg.hi, (CHOOSE r \in VG : TRUE).samples)
 
-JudgedExact(e, l) == CASE e.part = "all" -> TRUE [] e.part = "rest" -> ~InKF(e, l) [] e.part = "kf" -> InKF(e, l)
+(* exactness is judged for a label set whose replicas are seen consistently and completely *)
+Exactable(e, must, may, l) ==
+    /\ ~e.cfg.skip
+    /\ Group(may, RLof(e), l) = Group(must, RLof(e), l)
+    /\ (MidDown(e) => \A r \in Reps(e) : Strip(r.lbls, RLof(e)) = l =>      \* nothing of it on the store that broke
+                         \A k \in DOMAIN r.chunks : r.chunks[k].st # e.cfg.down)   \* mid-stream (its partial chunks
+                                                                                \* may open another chain)
+    /\ \A r \in Group(must, RLof(e), l) : ConsistentSamples(r.samples)
+JudgedExact(e, must, may, l) == Exactable(e, must, may, l) /\
+    (CASE e.part = "all" -> TRUE [] e.part = "rest" -> ~InKF(e, must, l) [] e.part = "kf" -> InKF(e, must, l))
 JudgedOther(e) == e.part # "kf"
 
 Mode(e, on, off) == IF RLof(e) # {} THEN on ELSE off
-StoreName(k) == "store-" \o ToString(k)
 
 Judge(e) ==
-    LET reps == VReps(e)  RL == RLof(e)  lo == e.cfg.lo  hi == e.cfg.hi  out == e.series
+    LET must == VH(e)  may == VA(e)  RL == RLof(e)  lo == e.cfg.lo  hi == e.cfg.hi  out == e.series
         aborted == Failing(e) /\ ~e.cfg.pr
+        outL == [i \in DOMAIN out |-> out[i].lbls]
     IN
     (* the query itself: succeeds when every queried store answers, and under the warn strategy *)
     (IF JudgedOther(e) /\ ~aborted /\ e.err # "" THEN {"select-succeeds"} ELSE {})
@@ -50,24 +77,42 @@ Judge(e) ==
     (* C04, sentence 1: "a query with deduplication on returns one series per label set after     *)
     (* removing the replica labels"; sentence 2: "With deduplication off every replica is         *)
     (* returned as its own series"                                                                 *)
-    (IF JudgedOther(e) /\ e.err = "" /\ ~OneSeriesPerLset(out, reps, RL, lo, hi)
+    (IF JudgedOther(e) /\ e.err = "" /\
+        ~(/\ NoDuplicates(outL)
+          /\ MustLsets(must, RL, lo, hi) \subseteq RangeOf(outL)
+          /\ RangeOf(outL) \subseteq MayLsets(may, RL))
        THEN {Mode(e, "dedup-on-one-series-per-labelset", "dedup-off-one-series-per-replica")} ELSE {})
     \cup
     (* "when the replicas hold identical samples that series has exactly those samples, however    *)
-    (* the data is cut into chunks, frames and stores" / "... with its own samples"                *)
-    (IF e.err = "" /\ \E i \in DOMAIN out : JudgedExact(e, out[i].lbls) /\ ~ExactWhenIdentical(out[i], reps, RL, lo, hi)
+    (* the data is cut into chunks, frames and stores" / "... with its own samples"; for data the  *)
+    (* stores serve downsampled, the samples of the aggregate the query's function reads           *)
+    (IF e.err = "" /\ \E i \in DOMAIN out : JudgedExact(e, must, may, out[i].lbls) /\ ~ExactWhenIdentical(out[i], must, RL, lo, hi)
        THEN {Mode(e, "identical-replicas-exact-samples", "replica-own-samples")} ELSE {})
     \cup
-    (* "with replica data": returned samples are samples of a replica of that logical series       *)
-    (IF JudgedOther(e) /\ e.err = "" /\ \E i \in DOMAIN out : ~Provenance(out[i], reps, RL)
+    (* "with replica data": returned samples are samples of a replica of that logical series; a    *)
+    (* counter function over non-identical replicas may shift values (C02): timestamps only        *)
+    (IF JudgedOther(e) /\ e.err = "" /\ \E i \in DOMAIN out :
+          IF CounterQuery(e) /\ ~IdenticalGroup(Group(may, RL, out[i].lbls))
+            THEN ~TimeProvenance(out[i], may, RL) ELSE ~Provenance(out[i], may, RL)
        THEN {"samples-from-replicas"} ELSE {})
     \cup
     (* ---- querier behaviour beyond C04's statement (extensions, same weakest-reading rule) ----  *)
+    (* counter functions (rate hints => counter dedup path): non-decreasing replicas give a        *)
+    (* non-decreasing answer with strictly increasing timestamps (C02 end to end)                  *)
+    (IF JudgedOther(e) /\ e.err = "" /\ CounterQuery(e) /\ ~e.cfg.skip /\ \E i \in DOMAIN out :
+          (\A r \in Group(may, RL, out[i].lbls) : NonDecreasing(r.samples)) /\ ~NonDecreasing(out[i].samples)
+       THEN {"ext-counter-non-decreasing"} ELSE {})
+    \cup
     (* partial response off + a failing store: the Select fails (flag -> ABORT strategy)           *)
     (IF JudgedOther(e) /\ aborted /\ e.err = "" THEN {"ext-abort-on-store-failure"} ELSE {})
     \cup
     (* partial response on + a failing store: a warning surfaces in SeriesSet.Warnings()           *)
     (IF JudgedOther(e) /\ Failing(e) /\ e.cfg.pr /\ e.err = "" /\ e.warns < 1 THEN {"ext-warning-surfaces"} ELSE {})
+    \cup
+    (* ... and what the healthy stores hold for a replica is complete in its series (dedup off)    *)
+    (IF JudgedOther(e) /\ e.err = "" /\ RL = {} /\ ~e.cfg.skip /\ \E i \in DOMAIN out :
+          \E r \in Group(must, RL, out[i].lbls) : ~(RangeOf(InRange(r.samples, lo, hi)) \subseteq RangeOf(out[i].samples))
+       THEN {"ext-healthy-stores-complete"} ELSE {})
     \cup
     (* the time range sent to every queried store covers the querier's [mint, maxt]                *)
     (IF JudgedOther(e) /\ \E k \in DOMAIN e.reqs : ~RangeCovers(e.reqs[k].mint, e.reqs[k].maxt, lo, hi)
@@ -80,16 +125,44 @@ Judge(e) ==
     (* max source resolution: never coarser than allowed, nor than range/2 for two-sample functions *)
     (IF JudgedOther(e) /\ \E k \in DOMAIN e.reqs : ~MaxResOK(e.reqs[k].maxres, e.cfg.maxres, e.cfg.fn, e.cfg.rng)
        THEN {"ext-max-resolution-honoured"} ELSE {})
+    \cup
+    (* metadata calls of the same querier (LabelNames, LabelValues(cfg.lv))                        *)
+    (IF JudgedOther(e) /\ ~aborted /\ e.lerr # "" THEN {"meta-calls-succeed"} ELSE {})
+    \cup
+    (IF JudgedOther(e) /\ e.lerr = "" /\
+        (RangeOf(e.lnames) \cap RL # {} \/ (e.cfg.lv \in RL /\ e.lvals # <<>>))
+       THEN {"meta-no-replica-labels"} ELSE {})
+    \cup
+    (IF JudgedOther(e) /\ e.lerr = "" /\ ~(NoDuplicates(e.lnames) /\ NoDuplicates(e.lvals))
+       THEN {"meta-each-once"} ELSE {})
+    \cup
+    (IF JudgedOther(e) /\ e.lerr = "" /\
+        ~(/\ NamesMust(must, RL, lo, hi) \subseteq RangeOf(e.lnames)
+          /\ ValuesMust(must, RL, e.cfg.lv, lo, hi) \subseteq RangeOf(e.lvals))
+       THEN {"meta-covers-series"} ELSE {})
+    \cup
+    (IF JudgedOther(e) /\ e.lerr = "" /\
+        ~(/\ RangeOf(e.lnames) \subseteq NamesMay(Reps(e), RL)
+          /\ RangeOf(e.lvals) \subseteq ValuesMay(Reps(e), RL, e.cfg.lv))
+       THEN {"meta-nothing-invented"} ELSE {})
 
 (* Model conformance (never a verdict): the algorithm-level pipeline predicts the samples inside *)
-(* the query range.                                                                              *)
+(* the query range, from the chunks as the stores served them.                                   *)
+EffGroupChunks(e, l) ==
+    { ch \in UNION { { LET ss == EffChunk(r, r.chunks[k], Served(e, r.chunks[k]), e.cfg.fn) IN
+                        IF ss = <<>> THEN [min |-> 0, max |-> -1, samples |-> ss, tie |-> r.id]
+                        ELSE [min |-> ss[1][1], max |-> ss[Len(ss)][1], samples |-> ss, tie |-> r.id]
+                      : k \in { k \in DOMAIN r.chunks : r.chunks[k].st \in Healthy(e) } }
+                    : r \in { x \in Reps(e) : Strip(x.lbls, RLof(e)) = l } }
+      : ch.samples # <<>> /\ ChunkOverlaps(ch, e.cfg.lo, e.cfg.hi) }
 NoTies(chs) == \A c, d \in chs : (c.min = d.min /\ c.max = d.max) => c.samples = d.samples
 Drift(e) ==
-    /\ e.drift /\ e.err = ""
+    /\ e.drift /\ e.err = "" /\ ~e.cfg.skip /\ ~MidDown(e) /\ ~e.cfg.tsdb
     /\ \E i \in DOMAIN e.series :
-         LET G == Group(SReps(e), RLof(e), e.series[i].lbls)
-             chs == GroupChunks(G, e.cfg.lo, e.cfg.hi) IN
-         /\ G # {} /\ NoTies(chs)
+         LET l == e.series[i].lbls
+             chs == EffGroupChunks(e, l) IN
+         /\ chs # {} /\ NoTies(chs)
+         /\ ~(CounterQuery(e) /\ ~IdenticalGroup(Group(VH(e), RLof(e), l)))
          /\ InRange(e.series[i].samples, e.cfg.lo, e.cfg.hi) #
                 (IF RLof(e) # {} THEN PipelineDedup(chs, e.cfg.lo, e.cfg.hi) ELSE PipelinePlain(chs, e.cfg.lo, e.cfg.hi))
 
